@@ -240,6 +240,71 @@ fn bundle_rt(i: usize, rng: &mut Rng) -> Vec<J> {
     out
 }
 
+/// C20 on long histories: two peers with a common prefix and long divergent suffixes (several actors each) sync
+/// over a reliable link, with local edits during the first rounds; then messages keep flowing until both are quiet.
+fn sync_long(i: usize, rng: &mut Rng) -> J {
+    use automerge::transaction::Transactable;
+    let common = [0usize, 3, 17, 40][i % 4] + rng.below(4);
+    let (ka, kb) = ([35usize, 2, 20, 0][(i / 4) % 4] + rng.below(6), [1usize, 33, 18, 45][(i / 4) % 4] + rng.below(6));
+    let mut a = automerge::AutoCommit::new().with_actor(enc::actor_from_num(1));
+    let l = a.put_object(automerge::ROOT, "l", automerge::ObjType::List).unwrap();
+    a.commit();
+    let edit = |d: &mut automerge::AutoCommit, rng: &mut Rng, k: usize| {
+        match rng.below(3) {
+            0 => { let _ = d.put(automerge::ROOT, format!("k{}", rng.below(5)), k as i64); }
+            1 => { let n = d.length(&l); let _ = d.insert(&l, rng.below(n + 1), k as i64); }
+            _ => { let n = d.length(&l); if n > 0 { let _ = d.delete(&l, rng.below(n)); } else { let _ = d.insert(&l, 0, 1i64); } }
+        }
+        d.commit();
+    };
+    for k in 0..common {
+        if k % 5 == 4 { a.set_actor(enc::actor_from_num(1 + (k % 3) as u8)); }
+        edit(&mut a, rng, k);
+    }
+    let mut b = a.fork().with_actor(enc::actor_from_num(10));
+    a.set_actor(enc::actor_from_num(20));
+    for k in 0..ka {
+        if k % 7 == 6 { a.set_actor(enc::actor_from_num(20 + (k % 4) as u8)); }
+        edit(&mut a, rng, 100 + k);
+    }
+    for k in 0..kb {
+        if k % 6 == 5 { b.set_actor(enc::actor_from_num(10 + (k % 4) as u8)); }
+        edit(&mut b, rng, 200 + k);
+    }
+    let (mut sa, mut sb) = (sync::State::new(), sync::State::new());
+    let (mut nm, mut quiet_at, mut late_edits) = (0usize, None, 0usize);
+    for round in 0..24 {
+        let mut quiet = true;
+        for dir in 0..2 {
+            let (from, to, sf, st) = if dir == 0 { (&mut a, &mut b, &mut sa, &mut sb) } else { (&mut b, &mut a, &mut sb, &mut sa) };
+            if let Some(m) = from.sync().generate_sync_message(sf) {
+                quiet = false;
+                nm += 1;
+                let bytes = m.encode();
+                match sync::Message::decode(&bytes) {
+                    Ok(dm) => { let _ = to.sync().receive_sync_message(st, dm); }
+                    Err(_) => return json!({"ev":"synclong","res":"decode-failed"}),
+                }
+            }
+            // local edits while the conversation is young
+            if round < 3 && rng.below(3) == 0 {
+                edit(to, rng, 300 + round);
+                late_edits += 1;
+                quiet = false;
+            }
+        }
+        if quiet {
+            quiet_at = Some(round);
+            break;
+        }
+    }
+    // (the saved bytes of two replicas may order the same changes differently; the state is compared)
+    let state = |d: &mut automerge::AutoCommit| serde_json::to_string(&automerge::AutoSerde::from(d.document())).unwrap_or_default();
+    let same = a.get_heads() == b.get_heads() && state(&mut a) == state(&mut b) && a.document().get_changes(&[]).len() == b.document().get_changes(&[]).len();
+    json!({"ev":"synclong","res":"ok","common":common,"na":ka,"nb":kb,"edits":late_edits,"nmsgs":nm,
+           "quiet": quiet_at.is_some(), "rounds": quiet_at.map(|x| x as i64).unwrap_or(-1), "converged": a.get_heads() == b.get_heads(), "same": same})
+}
+
 fn roundtrip(args: &[String]) {
     let seed: u64 = args[2].parse().unwrap();
     let n: usize = args[3].parse().unwrap();
@@ -265,6 +330,9 @@ fn roundtrip(args: &[String]) {
         for e in bundle_rt(i, &mut srng) {
             emit(&mut out, e);
         }
+        // C20: sync between long divergent histories
+        let e = catch_unwind(AssertUnwindSafe(|| sync_long(i, &mut srng))).unwrap_or_else(|p| json!({"ev":"synclong","res":world::panic_msg(p)}));
+        emit(&mut out, e);
         // C19: identifiers of every replica
         for r in 0..w.n() {
             let d = &w.reps[r];
